@@ -857,6 +857,65 @@ def u_sgn0(ctx):
     run("FQP", 12)
 
 
+def u_fq_compare(ctx, modname):
+    """comparison operators of FQ at integer level (z3), both files against the SAME reading: an FQ operand is compared by its
+    canonical representative, an int operand is compared AS GIVEN (not reduced) — `FQ(3) == p + 3` is False in both files.
+    ==, !=, <, and the functools.total_ordering derivations <=, >, >= for every n in [0, p) and every integer k."""
+    import ast as _ast
+    base = f"{modname}.FQ"
+    OPS = [("__eq__", _ast.Eq, lambda a, b: a == b), ("__ne__", _ast.NotEq, lambda a, b: a != b), ("__lt__", _ast.Lt, lambda a, b: a < b),
+           ("__le__", _ast.LtE, lambda a, b: a <= b), ("__gt__", _ast.Gt, lambda a, b: a > b), ("__ge__", _ast.GtE, lambda a, b: a >= b)]
+
+    def run(opname, node, spec, operand):
+        name = f"{base}.{opname}[{operand}]"
+
+        def body(path):
+            it = mk_interp(ctx, f"{base}.{opname}")
+            mod = it.prog.load(modname)
+            cls = it.module_value(mod, "FQ")
+            p = SInt(z3.Int("p"))
+            path.assume(p > 1, "modulus >= 2")
+            gcls = ClassVal("GFQ", mod, _FakeClassNode("GFQ"), [cls], {"field_modulus": p})
+
+            def elem(nm):
+                o = Obj(gcls)
+                n = SInt(z3.Int(nm))
+                path.assume(ZAtom(z3.And(zt(n) >= 0, zt(n) < zt(p))), f"valid: 0 <= {nm} < p")
+                o.attrs["n"] = n
+                return o, n
+            x, n = elem("n")
+            if operand == "FQ":
+                y, k = elem("m")
+            elif operand == "int":
+                k = SInt(z3.Int("k"))
+                y = k
+            else:
+                y, k = None, None
+            try:
+                res = it.compare(node(), x, y)
+            except PyRaise as pr:
+                path.prove(f"{name}/raises.TypeError", operand == "neither" and pr.exc_cls is TypeError,
+                           detail=f"raised {pr.exc_cls.__name__}")
+                return
+            if operand == "neither":
+                if opname in ("__eq__", "__ne__"):
+                    path.prove(f"{name}/raises.TypeError", False, detail="operand that is neither FQ nor int accepted")
+                return
+            got = res if isinstance(res, bool) else path.case(res, "result")
+            want = spec(zt(n), zt(k))
+            path.prove(f"{name}/ensures.iff", ZAtom(want if got else z3.Not(want)),
+                       detail="the verdict is the comparison of the canonical representative n with " +
+                              ("the other canonical representative" if operand == "FQ" else "the integer as given (not reduced)"))
+        ctx.ex.run(body, name)
+    for opname, node, spec in OPS:
+        for operand in ("FQ", "int", "neither"):
+            run(opname, node, spec, operand)
+
+
+for _mod, _tag in ((REF, "ref"), (OPT, "opt")):
+    UNITS[f"{_tag}.FQ.compare"] = Unit(f"{_tag}.FQ.compare", u_fq_compare,
+                                       [f"{_mod}.FQ.{m}" for m in ("__eq__", "__ne__", "__lt__")], props=("C08", "C14"), args=(_mod,))
+
 UNITS["opt.sgn0"] = Unit("opt.sgn0", u_sgn0, [f"{OPT}.FQ.sgn0", f"{OPT}.FQP.sgn0", f"{OPT}.FQ2.sgn0", f"{OPT}.mod_int"],
                          props=("C14", "C10"))
 
